@@ -296,6 +296,20 @@ class Chan(Engine):
             self._b58_decode_check(RB58.encode(raw[:p] + raw[p + 1:]), 'after losing stored byte %d' % p, fault='byte-del')
             self._b58_decode_check(RB58.encode(raw[:p] + b'\x00' + raw[p:]), 'after a stray stored byte at %d' % p, fault='byte-ins')
         ctx.fault('byte.sub/del/ins', len(raw) * 5)
+        # --- runs of the zero digit '1' INSIDE the text (1, 8, 9, 16 of them, overwritten at and inserted at every
+        # offset): plain decoding against the big-integer definition, and the Base58Check verdict
+        for o in range(1, len(text) + 1):
+            for k in (1, 8, 9, 16):
+                for t in (text[:o] + '1' * k + text[o + k:], text[:o] + '1' * k + text[o:]):
+                    try:
+                        got_raw = B58.decode(t)
+                    except Exception as e:        # noqa: BLE001
+                        got_raw = 'raised %s' % type(e).__name__
+                    if got_raw != RB58.decode(t):
+                        ctx.check(False, 'C10.ref', 'decoding %r (a run of %d zero digits at offset %d) gives %s, the big-integer definition gives %s'
+                                  % (t, k, o, got_raw.hex() if isinstance(got_raw, bytes) else got_raw, RB58.decode(t).hex()), fault='zero-run', k=k)
+                    self._b58_decode_check(t, 'with a run of %d zero digits at offset %d' % (k, o), fault='zero-run')
+        ctx.fault('text.zero-digit-run-inside', len(text) * 8)
         # --- seeded multi-edit sequences
         for m in a['multi']:
             t = text
@@ -829,6 +843,12 @@ class Chan(Engine):
                         chars = [foreign if v == -1 else CS[v] for v in vals] + [CS[c] for c in cs]
                         self._b32_judge(hrp, hrp + '1' + ''.join(chars), 'crafted with the non-alphabet character %r as version character and a checksum valid under "-1 for unknown"' % foreign,
                                         (ver, prog), False, fault='crafted', rule='foreign-char-steered')
+            # an all-upper-case string whose checksum was computed over the prefix AS WRITTEN, in upper case (the
+            # high bits of its letters are 2, not 3): single case, valid characters - and not the BIP173 checksum
+            if hrp.upper() != hrp:
+                up = hrp.upper() + '1' + ''.join(CS[d] for d in [ver] + d5 + RB32.checksum(hrp.upper(), [ver] + d5)).upper()
+                self._b32_judge(hrp, up, 'in upper case with the checksum computed over the upper-case prefix (version %d, %d-byte program)' % (ver, n), (ver, prog), False,
+                                fault='crafted', rule='checksum-over-uppercase-prefix')
             # checksum computed over the upper-case prefix (mixed-case trap)
             t = self._craft(hrp, [ver] + d5)
             self._b32_judge(hrp, hrp.upper() + t[len(hrp):], 'with only the prefix in upper case', (ver, prog), False, fault='crafted', rule='mixed')
